@@ -1,8 +1,317 @@
+/-
+C03 — the request codec (`internal/ocirequest`): what the client constructs the
+server classifies as the same request (Q1), every classified request carries only
+syntactically valid names (Q2), and each path family accepts exactly the methods of
+the table (Q3).
+Only property statements live here; every proof assembles lemmas from
+`OciModel/ReqCodecLemmas.lean`.
+-/
 import OciModel.ReqCodec
+import OciModel.ReqCodecLemmas
+import OciModel.B64Url
+import OciModel.B64UrlLemmas
 namespace OciModel.Props.C03
-open OciModel.ReqCodec
+open OciModel.Ref OciModel.ReqCodec
 
-/-- placeholder until the request-codec proofs are merged -/
-theorem rangeString_zero : rangeString 0 0 = (0, 0) := by decide
+/-! ### Concrete witnesses used by the satisfiability `example`s -/
+
+/-- `sha256:` followed by 64 times `a` -/
+def exDigest : Bytes := sha256 ++ cColon :: List.replicate 64 97
+/-- a repository that ends in the routing words `blobs/uploads` -/
+def exRepo : Bytes := strBytes "foo/blobs/uploads"
+/-- an upload ID (any bytes; here with a `/` and a `?` in it) -/
+def exID : Bytes := strBytes "a/b?c"
+
+def exBlobGet : Request := { kind := .blobGet, repo := exRepo, digest := exDigest }
+def exManifestPut : Request := { kind := .manifestPut, repo := strBytes "manifests/tags", tag := strBytes "uploads" }
+def exManifestGetList : Request := { kind := .manifestGet, repo := strBytes "tags", tag := strBytes "list" }
+def exTagsList : Request := { kind := .tagsList, repo := strBytes "v2/a_catalog/tags/list", listN := 2, listLast := strBytes "a" }
+def exComplete : Request :=
+  { kind := .blobCompleteUpload, repo := exRepo, uploadID := exID, digest := exDigest }
+def exStart : Request := { kind := .blobStartUpload, repo := exRepo }
+def exMount : Request :=
+  { kind := .blobMount, repo := exRepo, digest := exDigest, fromRepo := strBytes "blobs/uploads" }
+def exCatalog : Request := { kind := .catalogList, listN := -1 }
+
+/-- Construct with the concrete base64url codec, then parse. -/
+def roundTrip (r : Request) : Except PErr Request :=
+  let (m, p, q) := construct B64Url.encode r
+  parse B64Url.decode B64Url.validUTF8 m p (qget q)
+
+/-! ### Q1: the server classifies exactly the request the client constructed -/
+
+/-- The statement as first posed (no bound on `listN`). It is FALSE for the model as written:
+the model's `listN` is an unbounded `Int` where Go has an `int`, and `atoi` (like
+`strconv.Atoi`) rejects `n > 2^63 - 1`; see `construct_parse_listN_overflow`. -/
+def construct_parse_statement : Prop :=
+  ∀ (b64 : Bytes → Bytes) (unb64 : Bytes → Option Bytes) (validUTF8 : Bytes → Bool),
+    (∀ x, unb64 (b64 x) = some x) → (∀ x, x ≠ [] → b64 x ≠ []) → (∀ x, (47 : UInt8) ∉ b64 x) →
+    ∀ r, ValidReq validUTF8 r →
+      let (m, p, q) := construct b64 r
+      parse unb64 validUTF8 m p (qget q) = .ok r
+
+/-- All 17 kinds, every valid repository name, tag and digest; the only addition to the
+posed statement is that `listN` fits a Go `int` (`maxInt64 = 2^63 - 1`). No kind is missing. -/
+theorem construct_parse_partial (b64 : Bytes → Bytes) (unb64 : Bytes → Option Bytes)
+    (validUTF8 : Bytes → Bool)
+    (hb : ∀ x, unb64 (b64 x) = some x) (hne : ∀ x, x ≠ [] → b64 x ≠ [])
+    (hns : ∀ x, (47 : UInt8) ∉ b64 x)
+    (r : Request) (hv : ValidReq validUTF8 r) (hN : r.listN ≤ maxInt64) :
+    let (m, p, q) := construct b64 r
+    parse unb64 validUTF8 m p (qget q) = .ok r :=
+  construct_parse_aux b64 unb64 validUTF8 hb hne hns r hv hN
+
+/-- The posed statement, unchanged, for the 15 kinds that carry no `n` parameter. -/
+theorem construct_parse_nonlist (b64 : Bytes → Bytes) (unb64 : Bytes → Option Bytes)
+    (validUTF8 : Bytes → Bool)
+    (hb : ∀ x, unb64 (b64 x) = some x) (hne : ∀ x, x ≠ [] → b64 x ≠ [])
+    (hns : ∀ x, (47 : UInt8) ∉ b64 x)
+    (r : Request) (hv : ValidReq validUTF8 r)
+    (h1 : r.kind ≠ .tagsList) (h2 : r.kind ≠ .catalogList) :
+    let (m, p, q) := construct b64 r
+    parse unb64 validUTF8 m p (qget q) = .ok r :=
+  construct_parse_aux b64 unb64 validUTF8 hb hne hns r hv (validReq_listN_le hv h1 h2)
+
+/-- Why the bound is there: a valid `tagsList` with `listN = 2^63` is constructed as
+`?n=9223372036854775808`, which the server answers with 400. (A model artefact: Go's `ListN`
+is an `int` and cannot hold this value.) -/
+theorem construct_parse_listN_overflow :
+    ValidReq B64Url.validUTF8 { kind := .tagsList, repo := strBytes "foo", listN := 9223372036854775808 } ∧
+    roundTrip { kind := .tagsList, repo := strBytes "foo", listN := 9223372036854775808 } =
+      .error .badRequest := by
+  refine ⟨⟨by decide, by decide, rfl⟩, by decide⟩
+
+/-- The posed statement is false for the model as written (see above: a model artefact of
+`listN : Int`, not a routing defect). -/
+theorem construct_parse_statement_false : ¬ construct_parse_statement := by
+  intro h
+  have h1 := h B64Url.encode B64Url.decode B64Url.validUTF8 B64Url.decode_encode
+    B64Url.encode_ne_nil B64Url.encode_no_slash _ construct_parse_listN_overflow.1
+  have e : (Except.ok _ : Except PErr Request) = .error .badRequest :=
+    h1.symm.trans construct_parse_listN_overflow.2
+  cases e
+
+/-- The concrete codec (Go's `base64.RawURLEncoding`, `utf8.Valid`) satisfies the three codec
+hypotheses, so for it the round trip holds outright. -/
+theorem construct_parse_b64url (r : Request) (hv : ValidReq B64Url.validUTF8 r)
+    (hN : r.listN ≤ maxInt64) : roundTrip r = .ok r :=
+  construct_parse_aux B64Url.encode B64Url.decode B64Url.validUTF8 B64Url.decode_encode
+    B64Url.encode_ne_nil B64Url.encode_no_slash r hv hN
+
+/-- The decimal printer and `atoi` agree on every `n` that fits an `int` (proved, not assumed). -/
+theorem atoi_itoa (n : Int) (h0 : 0 ≤ n) (hmax : n ≤ maxInt64) : atoi (itoa n) = some n :=
+  OciModel.ReqCodec.atoi_itoa n h0 hmax
+
+/-- The method the client uses is the method of the table. -/
+theorem construct_method (b64 : Bytes → Bytes) (r : Request) :
+    (construct b64 r).1 = kindMethod r.kind :=
+  OciModel.ReqCodec.construct_method b64 r
+
+/-! The hypotheses are satisfiable, on names that contain the routing words. -/
+
+example : ValidReq B64Url.validUTF8 exBlobGet ∧ exBlobGet.listN ≤ maxInt64 :=
+  ⟨⟨by decide, by decide, rfl⟩, by decide⟩
+example : roundTrip exBlobGet = .ok exBlobGet := by decide
+example : ValidReq B64Url.validUTF8 exManifestPut := ⟨by decide, Or.inr ⟨by decide, rfl⟩⟩
+example : roundTrip exManifestPut = .ok exManifestPut := by decide
+example : ValidReq B64Url.validUTF8 exManifestGetList := ⟨by decide, Or.inr ⟨by decide, rfl⟩⟩
+example : roundTrip exManifestGetList = .ok exManifestGetList := by decide
+example : ValidReq B64Url.validUTF8 exTagsList ∧ exTagsList.listN ≤ maxInt64 :=
+  ⟨⟨by decide, by decide, rfl⟩, by decide⟩
+example : roundTrip exTagsList = .ok exTagsList := by decide
+example : ValidReq B64Url.validUTF8 exComplete :=
+  ⟨by decide, by decide, by decide, by decide, rfl⟩
+example : roundTrip exComplete = .ok exComplete := by decide
+example : ValidReq B64Url.validUTF8 exStart := ⟨by decide, rfl⟩
+example : roundTrip exStart = .ok exStart := by decide
+example : ValidReq B64Url.validUTF8 exMount := ⟨by decide, by decide, by decide, rfl⟩
+example : roundTrip exMount = .ok exMount := by decide
+example : ValidReq B64Url.validUTF8 exCatalog := ⟨by decide, rfl⟩
+example : roundTrip exCatalog = .ok exCatalog := by decide
+/-- The codec hypotheses on the concrete base64url codec, at the example ID. -/
+example : B64Url.decode (B64Url.encode exID) = some exID ∧ B64Url.encode exID ≠ [] ∧
+    (47 : UInt8) ∉ B64Url.encode exID := by decide
+
+/-! ### Q2: a classified request carries only valid names -/
+
+/-- `parse` is a total function: every method, path and query has an answer. -/
+theorem parse_total (unb64 : Bytes → Option Bytes) (validUTF8 : Bytes → Bool)
+    (m p : Bytes) (q : Bytes → Bytes) :
+    ∃ res : Except PErr Request, parse unb64 validUTF8 m p q = res :=
+  ⟨_, rfl⟩
+
+example : parse B64Url.decode B64Url.validUTF8 mGET [] (qget []) = .error .unknownPath := by decide
+example : parse B64Url.decode B64Url.validUTF8 mGET (strBytes "/v2/") (qget []) =
+    .ok { kind := .ping } := by decide
+/-- An empty last segment is an error, never an `.ok` with an empty tag. -/
+example : parse B64Url.decode B64Url.validUTF8 mGET (strBytes "/v2/foo/manifests/") (qget []) =
+    .error .notFound := by decide
+example : parse B64Url.decode B64Url.validUTF8 mGET (strBytes "/v2/foo/blobs/uploads/") (qget []) =
+    .error .methodNotAllowed := by decide
+example : parse B64Url.decode B64Url.validUTF8 mGET (strBytes "/v2/Foo/tags/list") (qget []) =
+    .error .nameInvalid := by decide
+
+/-- The exact shape of every `.ok` answer (`ParsedReq` mirrors `ValidReq`, kind by kind). -/
+theorem parse_ok_shape (unb64 : Bytes → Option Bytes) (validUTF8 : Bytes → Bool)
+    (m p : Bytes) (q : Bytes → Bytes) (r : Request)
+    (h : parse unb64 validUTF8 m p q = .ok r) : ParsedReq unb64 validUTF8 r :=
+  (parse_ok unb64 validUTF8 h).1
+
+/-- No request reaches a backend with a syntactically invalid repository, tag, digest or
+mount source; a manifest is named by exactly one of tag and digest; an upload ID is valid
+UTF-8 and was decoded from a non-empty path segment. -/
+theorem parse_sound (unb64 : Bytes → Option Bytes) (validUTF8 : Bytes → Bool)
+    (m p : Bytes) (q : Bytes → Bytes) (r : Request)
+    (h : parse unb64 validUTF8 m p q = .ok r) :
+    (r.kind ≠ .ping → r.kind ≠ .catalogList → isRepo r.repo = true) ∧
+    (r.digest ≠ [] → isDigest r.digest = true) ∧
+    (r.tag ≠ [] → isTag r.tag = true) ∧
+    (r.fromRepo ≠ [] → isRepo r.fromRepo = true) ∧
+    (r.kind.isManifest = true →
+      (isDigest r.digest = true ∧ r.tag = []) ∨ (isTag r.tag = true ∧ r.digest = [])) ∧
+    (r.kind.isUpload = true →
+      validUTF8 r.uploadID = true ∧ ∃ seg, seg ≠ [] ∧ unb64 seg = some r.uploadID) :=
+  have hp := (parse_ok unb64 validUTF8 h).1
+  ⟨parsed_repo _ _ hp, parsed_digest _ _ hp, parsed_tag _ _ hp, parsed_fromRepo _ _ hp,
+    parsed_manifest _ _ hp, parsed_upload _ _ hp⟩
+
+/-- A classified request is one the client could have built, as soon as its upload ID is
+non-empty and `listN ≥ -1` (the two things only the client guarantees). -/
+theorem parse_ok_valid (unb64 : Bytes → Option Bytes) (validUTF8 : Bytes → Bool)
+    (m p : Bytes) (q : Bytes → Bytes) (r : Request)
+    (h : parse unb64 validUTF8 m p q = .ok r)
+    (hid : r.kind.isUpload = true → r.uploadID ≠ []) (hn : r.listN ≥ -1) :
+    ValidReq validUTF8 r :=
+  parsed_valid _ _ (parse_ok unb64 validUTF8 h).1 hid hn
+
+/-- The hypothesis of `parse_sound` is satisfiable (an upload PUT with all parts present). -/
+example : parse B64Url.decode B64Url.validUTF8 mPUT
+    (strBytes "/v2/foo/blobs/uploads/blobs/uploads/YS9iP2M") (qget [(qDigest, exDigest)]) =
+    .ok exComplete := by decide
+
+/-- Observation: the ID of a classified upload request can be EMPTY although the path segment
+is not — Go's base64 decoder skips `\n` and `\r`, so the segment `"\n"` decodes to `""`.
+(`parse_sound` therefore promises a non-empty segment, not a non-empty ID.) -/
+theorem parse_upload_empty_id :
+    parse B64Url.decode B64Url.validUTF8 mGET (strBytes "/v2/foo/blobs/uploads/\n") (qget []) =
+      .ok { kind := .blobUploadInfo, repo := strBytes "foo", uploadID := [] } := by decide
+
+/-! ### Q3: the methods accepted are exactly the table -/
+
+/-- Whatever is classified was classified under the method the client would use for that
+kind (`/v2/` itself answers every method). -/
+theorem parse_method_exact (b64 : Bytes → Bytes) (unb64 : Bytes → Option Bytes)
+    (validUTF8 : Bytes → Bool) (m p : Bytes) (q : Bytes → Bytes) (r : Request)
+    (h : parse unb64 validUTF8 m p q = .ok r) (hk : r.kind ≠ .ping) :
+    m = (construct b64 r).1 := by
+  rw [OciModel.ReqCodec.construct_method]
+  exact (parse_ok unb64 validUTF8 h).2 hk
+
+/-- Blobs: GET / HEAD / DELETE; any other method is 405. -/
+theorem parse_method_exact_blob (unb64 : Bytes → Option Bytes) (validUTF8 : Bytes → Bool)
+    (m : Bytes) (q : Bytes → Bytes) (R d : Bytes) (hR : isRepo R = true) (hd : isDigest d = true) :
+    parse unb64 validUTF8 m (sV2Slash ++ R ++ strBytes "/blobs/" ++ d) q =
+      if m = mGET then .ok { kind := .blobGet, repo := R, digest := d }
+      else if m = mHEAD then .ok { kind := .blobHead, repo := R, digest := d }
+      else if m = mDELETE then .ok { kind := .blobDelete, repo := R, digest := d }
+      else .error .methodNotAllowed :=
+  parse_blob_methods unb64 validUTF8 m q hR hd
+
+/-- Upload sessions: GET / PATCH / PUT (PUT needs a valid `digest` parameter); any other
+method is 405. `seg` is any slash-free, non-empty segment decoding to valid UTF-8. -/
+theorem parse_method_exact_upload (unb64 : Bytes → Option Bytes) (validUTF8 : Bytes → Bool)
+    (m : Bytes) (q : Bytes → Bytes) (R seg id : Bytes) (hR : isRepo R = true)
+    (hs : (47 : UInt8) ∉ seg) (hne : seg ≠ []) (hdec : unb64 seg = some id)
+    (hu : validUTF8 id = true) :
+    parse unb64 validUTF8 m (sV2Slash ++ R ++ sUploadsSlash ++ seg) q =
+      if m = mGET then .ok { kind := .blobUploadInfo, repo := R, uploadID := id }
+      else if m = mPATCH then .ok { kind := .blobUploadChunk, repo := R, uploadID := id }
+      else if m = mPUT then
+        if !isDigest (q qDigest) then .error .badlyFormedDigest
+        else .ok { kind := .blobCompleteUpload, repo := R, uploadID := id, digest := q qDigest }
+      else .error .methodNotAllowed :=
+  parse_upload_methods unb64 validUTF8 m q hR (noSlash_of_not_mem hs) hne hdec hu
+
+/-- Manifests by digest: GET / HEAD / PUT / DELETE; any other method is 405. -/
+theorem parse_method_exact_manifest_digest (unb64 : Bytes → Option Bytes)
+    (validUTF8 : Bytes → Bool) (m : Bytes) (q : Bytes → Bytes) (R d : Bytes)
+    (hR : isRepo R = true) (hd : isDigest d = true) :
+    parse unb64 validUTF8 m (sV2Slash ++ R ++ strBytes "/manifests/" ++ d) q =
+      if m = mGET then .ok { kind := .manifestGet, repo := R, digest := d }
+      else if m = mHEAD then .ok { kind := .manifestHead, repo := R, digest := d }
+      else if m = mPUT then .ok { kind := .manifestPut, repo := R, digest := d }
+      else if m = mDELETE then .ok { kind := .manifestDelete, repo := R, digest := d }
+      else .error .methodNotAllowed :=
+  parse_manifest_digest_methods unb64 validUTF8 m q hR hd
+
+/-- Manifests by tag: GET / HEAD / PUT / DELETE; any other method is 405. -/
+theorem parse_method_exact_manifest_tag (unb64 : Bytes → Option Bytes)
+    (validUTF8 : Bytes → Bool) (m : Bytes) (q : Bytes → Bytes) (R t : Bytes)
+    (hR : isRepo R = true) (ht : isTag t = true) :
+    parse unb64 validUTF8 m (sV2Slash ++ R ++ strBytes "/manifests/" ++ t) q =
+      if m = mGET then .ok { kind := .manifestGet, repo := R, tag := t }
+      else if m = mHEAD then .ok { kind := .manifestHead, repo := R, tag := t }
+      else if m = mPUT then .ok { kind := .manifestPut, repo := R, tag := t }
+      else if m = mDELETE then .ok { kind := .manifestDelete, repo := R, tag := t }
+      else .error .methodNotAllowed :=
+  parse_manifest_tag_methods unb64 validUTF8 m q hR ht
+
+/-- Upload start, with and without the trailing slash: POST only. -/
+theorem parse_method_exact_start (unb64 : Bytes → Option Bytes) (validUTF8 : Bytes → Bool)
+    (m : Bytes) (q : Bytes → Bytes) (R : Bytes) (hR : isRepo R = true) (hm : m ≠ mPOST) :
+    parse unb64 validUTF8 m (sV2Slash ++ R ++ sUploadsSlash) q = .error .methodNotAllowed ∧
+    parse unb64 validUTF8 m (sV2Slash ++ R ++ sUploadsNoSlash) q = .error .methodNotAllowed :=
+  parse_start_methods unb64 validUTF8 m q hR hm
+
+/-- … and POST itself is never answered with 405 there. -/
+theorem parse_method_exact_start_post (unb64 : Bytes → Option Bytes) (validUTF8 : Bytes → Bool)
+    (q : Bytes → Bytes) (R : Bytes) (hR : isRepo R = true) :
+    parse unb64 validUTF8 mPOST (sV2Slash ++ R ++ sUploadsSlash) q ≠ .error .methodNotAllowed :=
+  parse_start_post unb64 validUTF8 q hR
+
+/-- Tag list: GET only (once the `n` parameter has been accepted; a bad `n` is 400 first). -/
+theorem parse_method_exact_tagsList (unb64 : Bytes → Option Bytes) (validUTF8 : Bytes → Bool)
+    (m : Bytes) (q : Bytes → Bytes) (R : Bytes) (r' : Request) (hR : isRepo R = true)
+    (hl : listParams q { kind := .tagsList } = .ok r') :
+    parse unb64 validUTF8 m (sV2Slash ++ R ++ strBytes "/tags/list") q =
+      if m = mGET then .ok { r' with repo := R } else .error .methodNotAllowed :=
+  parse_tagsList_methods unb64 validUTF8 m q hR hl
+
+/-- Referrers: GET only. -/
+theorem parse_method_exact_referrers (unb64 : Bytes → Option Bytes) (validUTF8 : Bytes → Bool)
+    (m : Bytes) (q : Bytes → Bytes) (R d : Bytes) (hR : isRepo R = true)
+    (hd : isDigest d = true) :
+    parse unb64 validUTF8 m (sV2Slash ++ R ++ strBytes "/referrers/" ++ d) q =
+      if m = mGET then .ok { kind := .referrersList, repo := R, digest := d, listN := -1 }
+      else .error .methodNotAllowed :=
+  parse_referrers_methods unb64 validUTF8 m q hR hd
+
+/-- Catalog: GET only. -/
+theorem parse_method_exact_catalog (unb64 : Bytes → Option Bytes) (validUTF8 : Bytes → Bool)
+    (m : Bytes) (q : Bytes → Bytes) (hm : m ≠ mGET) :
+    parse unb64 validUTF8 m (strBytes "/v2/_catalog") q = .error .methodNotAllowed :=
+  parse_catalog_methods unb64 validUTF8 m q hm
+
+/-- `/v2/` and `/v2` answer every method. -/
+theorem parse_method_exact_ping (unb64 : Bytes → Option Bytes) (validUTF8 : Bytes → Bool)
+    (m : Bytes) (q : Bytes → Bytes) :
+    parse unb64 validUTF8 m sV2Slash q = .ok { kind := .ping } ∧
+    parse unb64 validUTF8 m sV2 q = .ok { kind := .ping } :=
+  parse_ping_any_method unb64 validUTF8 m q
+
+/-- The hypotheses of the method tables are satisfiable; a method outside the table is 405. -/
+example : isRepo exRepo = true ∧ isDigest exDigest = true ∧ isTag (strBytes "uploads") = true := by
+  decide
+example : parse B64Url.decode B64Url.validUTF8 mPOST
+    (sV2Slash ++ exRepo ++ strBytes "/blobs/" ++ exDigest) (qget []) = .error .methodNotAllowed := by
+  decide
+example : parse B64Url.decode B64Url.validUTF8 mPATCH
+    (sV2Slash ++ exRepo ++ strBytes "/manifests/" ++ strBytes "uploads") (qget []) =
+    .error .methodNotAllowed := by decide
+example : (47 : UInt8) ∉ B64Url.encode exID ∧ B64Url.encode exID ≠ [] ∧
+    B64Url.decode (B64Url.encode exID) = some exID ∧ B64Url.validUTF8 exID = true := by decide
+example : listParams (qget [(qN, strBytes "2")]) { kind := .tagsList } =
+    .ok { kind := .tagsList, listN := 2 } := by decide
+example : mPATCH ≠ mPOST ∧ mDELETE ≠ mGET := by decide
 
 end OciModel.Props.C03
